@@ -9,34 +9,37 @@
 EXTENDS Cut, TLC, Json
 
 Echoed(r) == Src(r.pieces) = r.src                    \* the driver rendered exactly the logged pieces
-Judged(r) == r.outcome = "ok" /\ Echoed(r) /\ Defined(r.pieces, r.fmt)
+HasOpinion(r) == Echoed(r) /\ Defined(r.pieces, r.fmt)
+Judged(r) == r.outcome = "ok" /\ HasOpinion(r)
 RecOk(r) == Judged(r) => InEnvelope(r.pieces, r.out)
 \* signature: the root cause as far as the reference can see it, not the input
 Sig(r) == [fam |-> "cut", cause |-> Cause(r.pieces, r.out), last |-> LastKind(r.pieces)]
 
-DriftAny(r)  == Judged(r) /\ ModelOut(r.pieces, TRUE) # r.out
-DriftText(r) == Judged(r) /\ ModelOut(r.pieces, FALSE) # r.out
-
 (* ---- record-walk skeleton (spec/lib2/Trace_HTMLEscape.tla) + skip/drift counters ---- *)
-VARIABLES l, nbad, njudged, ndany, ndtext, nbuilderr, nundef
+VARIABLES l, nbad, njudged, ndany, ndtext, nnotok, nundef
 Obs == ndJsonDeserialize("obs.ndjson")
-Init == l = 1 /\ nbad = 0 /\ njudged = 0 /\ ndany = 0 /\ ndtext = 0 /\ nbuilderr = 0 /\ nundef = 0
+Init == l = 1 /\ nbad = 0 /\ njudged = 0 /\ ndany = 0 /\ ndtext = 0 /\ nnotok = 0 /\ nundef = 0
 Next == /\ l <= Len(Obs) /\ l' = l + 1
-        /\ LET r == Obs[l] j == Judged(r) IN
-           /\ nbad' = nbad + (IF RecOk(r) THEN 0 ELSE 1)
+        /\ LET r == Obs[l]
+               op == HasOpinion(r)
+               j == op /\ r.outcome = "ok"
+               toks == Lex(r.pieces)
+           IN
+           /\ nbad' = nbad + (IF j /\ ~InEnvelope(r.pieces, r.out) THEN 1 ELSE 0)
            /\ njudged' = njudged + (IF j THEN 1 ELSE 0)
-           /\ ndany' = ndany + (IF j /\ DriftAny(r) THEN 1 ELSE 0)
-           /\ ndtext' = ndtext + (IF j /\ DriftText(r) THEN 1 ELSE 0)
-           /\ nbuilderr' = nbuilderr + (IF r.outcome # "ok" /\ Echoed(r) /\ Defined(r.pieces, r.fmt) THEN 1 ELSE 0)
-           /\ nundef' = nundef + (IF ~(Echoed(r) /\ Defined(r.pieces, r.fmt)) THEN 1 ELSE 0)
+           /\ ndany' = ndany + (IF j /\ ModelOutT(toks, TRUE) # r.out THEN 1 ELSE 0)
+           /\ ndtext' = ndtext + (IF j /\ ModelOutT(toks, FALSE) # r.out THEN 1 ELSE 0)
+           /\ nnotok' = nnotok + (IF op /\ r.outcome # "ok" THEN 1 ELSE 0)
+           /\ nundef' = nundef + (IF ~op THEN 1 ELSE 0)
 BadIdx == SelectSeq([i \in 1..Len(Obs) |-> i], LAMBDA i : ~RecOk(Obs[i]))
 Done == l = Len(Obs) + 1 =>
           /\ ndJsonSerialize("bad.ndjson",
                IF nbad = 0 THEN <<>>
-               ELSE [j \in 1..(IF Len(BadIdx) < 2000 THEN Len(BadIdx) ELSE 2000) |->
-                       [k |-> BadIdx[j], id |-> Obs[BadIdx[j]].id, sig |-> Sig(Obs[BadIdx[j]]), nbad |-> nbad]])
+               ELSE LET B == BadIdx IN
+                    [j \in 1..(IF Len(B) < 2000 THEN Len(B) ELSE 2000) |->
+                       [k |-> B[j], id |-> Obs[B[j]].id, sig |-> Sig(Obs[B[j]]), nbad |-> nbad]])
           /\ ndJsonSerialize("stats.ndjson",
                <<[records |-> Len(Obs), judged |-> njudged, bad |-> nbad, drift_eof_any_token |-> ndany,
-                  drift_eof_text_only |-> ndtext, not_ok_on_defined |-> nbuilderr, ref_undefined |-> nundef]>>)
+                  drift_eof_text_only |-> ndtext, not_ok_on_defined |-> nnotok, ref_undefined |-> nundef]>>)
 Consumed == TLCGet("stats").diameter - 1 = Len(Obs)
 =============================================================================
